@@ -15,7 +15,7 @@ import xarray as xr  # noqa: E402
 import hdc.algo  # noqa: F401,E402
 from hdc.algo import ops  # noqa: E402
 
-from interp import Recorder, interpreted, nb_arange  # noqa: E402
+from interp import Recorder, interpreted, nb_arange, NPProxy  # noqa: E402
 
 
 def fl(v):
@@ -97,18 +97,24 @@ def run_kernel(c):
             try:
                 from interp import _NB  # noqa
                 interpreted(ops.ws2dwcv)  # fills _NB["ws2d"]
-                seen = []
+                seen, med = [], []
+
+                class NPMed(NPProxy):
+                    # np.median as numpy's, noting how many residuals enter the robust scale
+                    def median(self, a, *aa, **kk):
+                        med.append(int(np.size(a)))
+                        return np.median(a, *aa, **kk)
 
                 def ws2d_rec(yy, lam, ww):
                     seen.append(int(np.count_nonzero(np.asarray(ww))))
                     return _NB["ws2d"](yy, lam, ww)
                 io, il = np.zeros(n, dtype="int16"), np.zeros(1)
                 if k == "wcv":
-                    interpreted(ops.ws2dwcv, None, extra={"ws2d": ws2d_rec})(y, nd, llas, True, io, il)
+                    interpreted(ops.ws2dwcv, None, extra={"ws2d": ws2d_rec, "np": NPMed()})(y, nd, llas, True, io, il)
                 else:
-                    interpreted(ops.ws2dwcvp, None, extra={"ws2d": ws2d_rec})(y, nd, float(c["p"]), llas, True, io, il)
+                    interpreted(ops.ws2dwcvp, None, extra={"ws2d": ws2d_rec, "np": NPMed()})(y, nd, float(c["p"]), llas, True, io, il)
                 if seen:
-                    solves = dict(min_weighted=min(seen), n_solves=len(seen), same_as_compiled=bool([int(v) for v in io] == [int(v) for v in o] and float(il[0]) == float(l)))
+                    solves = dict(min_weighted=min(seen), n_solves=len(seen), max_median_cells=max(med) if med else 0, same_as_compiled=bool([int(v) for v in io] == [int(v) for v in o] and float(il[0]) == float(l)))
             except Exception as e:  # noqa
                 solves = dict(error=repr(e)[:200])
         # the same series with other placeholders in its missing cells (huge magnitudes, NaN): band and lambda must not move
